@@ -35,7 +35,7 @@ namespace {
       J b = J::array();
       const int n = int(rng.range(1, max_n));
       for (int i = 0; i < n; ++i) {
-        const int k = int(rng.below(d <= 0 ? 6 : 13));
+        const int k = int(rng.below(d <= 0 ? 6 : 14));
         J s = J::object();
         switch (k) {
         case 0:
@@ -131,6 +131,10 @@ namespace {
           s["k"] = J("cb");
           s["site"] = J(next_site++);
           break;
+        case 13:
+          s["k"] = J("hf"); // call of a helper whose position in the function table changes during the history
+          s["i"] = J(int(rng.below(3)));
+          break;
         default: {
           // introduction + read inside an if block of its own
           s["k"] = J("introblock");
@@ -180,6 +184,7 @@ namespace {
       return "g" + std::to_string(s.at("f").num()) + "(" + ((f & 1) ? "true" : "false") + ", " + ((f & 2) ? "true" : "false") + ", " + ((f & 4) ? "true" : "false") + ", 0);";
     }
     if (k == "cb") return "cb(" + std::to_string(s.at("site").num()) + ");";
+    if (k == "hf") return "t(hf" + std::to_string(s.at("i").num() % 3) + "(0));";
     // ---- shapes that are never generated; they exist for the known-finding replay files
     if (k == "intro_unguarded_read") {
       // K2: the read is evaluated both when the name is not local and when it is
@@ -287,6 +292,8 @@ namespace {
         const int f = int(s.at("flags").num());
         const bool fl[3] = {(f & 1) != 0, (f & 2) != 0, (f & 4) != 0};
         call(int(s.at("f").num()), fl, 0);
+      } else if (k == "hf") {
+        trace.push_back(2000 + s.at("i").num() % 3);
       } else if (k == "cb") {
         if (int(s.at("site").num()) == fault_site) {
           throw Abort();
@@ -350,7 +357,13 @@ namespace {
       for (int i = 0; i < n; ++i) {
         J op = J::object();
         op["a"] = J(int(plan.below(uint64_t(T))));
-        if (plan.chance(120)) {
+        if (T == 1 && plan.chance(100)) {
+          // (single-actor plans only: the table is briefly without the helpers) restore the snapshot taken
+          // before the helper functions were defined and define them again in another order, so that
+          // every cached function-table position of the long-lived bodies is stale
+          op["k"] = J("reorder");
+          op["perm"] = J(int(plan.below(6)));
+        } else if (plan.chance(120)) {
           // a name that is a function from the start and becomes a global later: the same reader body is
           // evaluated before and after.  Always actor 0, so that the reads are ordered with the creation.
           op["a"] = J(0);
@@ -455,6 +468,17 @@ namespace {
       for (int j = 0; j < 2; ++j) {
         e.eval("global LAM" + std::to_string(j) + " = fun() { var c = " + std::to_string(70 + j) + "; return fun[c](x) { t(c); t(x); c + x } }()");
       }
+      const Engine::State before_helpers = e.get_state();
+      auto define_helpers = [&](int perm) {
+        static const int orders[6][3] = {{0, 1, 2}, {0, 2, 1}, {1, 0, 2}, {1, 2, 0}, {2, 0, 1}, {2, 1, 0}};
+        for (int q = 0; q < 3; ++q) {
+          const int i = orders[perm % 6][q];
+          // an unrelated function in between shifts the positions further
+          e.eval("def hf_pad" + std::to_string(perm % 6) + "_" + std::to_string(q) + "(x) { x }");
+          e.eval("def hf" + std::to_string(i) + "(x) { " + std::to_string(2000 + i) + " }");
+        }
+      };
+      define_helpers(0);
       std::vector<std::vector<size_t>> mine(static_cast<size_t>(T));
       for (size_t i = 0; i < ops.size(); ++i) {
         const int a = int(ops[i].at("a").num());
@@ -467,6 +491,14 @@ namespace {
           const J &op = ops[oi];
           OpScope scope;
           std::string o;
+          if (op.at("k").str() == "reorder") {
+            if (T == 1) {
+              e.set_state(before_helpers);
+              define_helpers(int(op.at("perm").num()) + 1);
+            }
+            out.outs[oi] = "=i:0";
+            continue;
+          }
           if (op.at("k").str() == "decl_top") {
             // (never generated: known finding C04-K3) a top-level local that shadows a global
             o = eval_show(e, "var TL" + std::to_string(op.at("j").num() % 2) + " = " + std::to_string(op.at("tag").num()) + "; 0");
@@ -544,7 +576,11 @@ namespace {
           continue;
         }
         auto &tr = want[size_t(a) + 1];
-        if (op.at("k").str() == "decl_top") {
+        if (op.at("k").str() == "reorder") {
+          want_out[oi] = "=i:0";
+          nv_global[0] = nv_global[1] = false; // globals created after the snapshot are gone as well
+          r.counters["probe_function_table_reordered"] += 1;
+        } else if (op.at("k").str() == "decl_top") {
           tl_local[size_t(a)][op.at("j").num() % 2] = op.at("tag").num();
           want_out[oi] = "=i:0";
         } else if (op.at("k").str() == "tree_eval") {
